@@ -110,6 +110,9 @@ def gen_definition(rng, fam):
         return "pre " + L.ctx("y") + " post"
 
     def when():
+        if fam.get("p_pub_dict") and rng.random() < 0.12:
+            # sensitive to what has been merged into the dict variable so far
+            return L.e("len(ctx().dv) > 1", "ctx().dv | length > 1")
         r = rng.random()
         if r < 0.4:
             return L.e("succeeded()")
